@@ -95,6 +95,8 @@ type Cfg struct {
 	MMUInflight int         `json:"mmu_inflight"`
 	MMUPortBuf  int         `json:"mmu_port_buf"`
 	AutoAlloc   bool        `json:"auto_alloc"`
+	PlainPT     bool        `json:"plain_pt,omitempty"`   // the MMU gets the page table behind a minimal vm.PageTable
+	DefaultPT   bool        `json:"default_pt,omitempty"` // no page table injected: the MMU builds its own (real simulations)
 	Pages       []PageCfg   `json:"pages"`
 	Reqs        []VReq      `json:"reqs"`
 	MemDelay    int         `json:"mem_delay"`
